@@ -49,6 +49,7 @@ use std::time::Duration;
 
 use hutil::{Args, Log, Rng, Stats};
 use ractor::verif::{self, ThreadCtl, ThreadPhase};
+use ractor::thread_local::{ThreadLocalActor, ThreadLocalActorSpawner};
 use ractor::{Actor, ActorCell, ActorProcessingErr, ActorRef, Message, SupervisionEvent};
 
 static CASE_NO: AtomicU64 = AtomicU64::new(0);
@@ -100,6 +101,28 @@ impl Actor for Target {
     async fn post_stop(&self, _: ActorRef<TMsg>, _: &mut Explosive) -> Result<(), ActorProcessingErr> {
         verif::point("post_stop");
         self.post.store(true, Ordering::SeqCst);
+        Ok(())
+    }
+}
+
+/// The target as a thread-local actor (`ThreadLocalActorSpawner`, its own thread): the other spawn
+/// flavour, whose join handle is the `spawn_local` handle handed back through the spawner.
+#[derive(Default)]
+struct LTarget;
+impl ThreadLocalActor for LTarget {
+    type Msg = TMsg;
+    type State = Arc<AtomicBool>;
+    type Arguments = Arc<AtomicBool>;
+    async fn pre_start(&self, _: ActorRef<TMsg>, post: Arc<AtomicBool>) -> Result<Arc<AtomicBool>, ActorProcessingErr> {
+        Ok(post)
+    }
+    async fn handle(&self, _: ActorRef<TMsg>, m: TMsg, _: &mut Arc<AtomicBool>) -> Result<(), ActorProcessingErr> {
+        match m {
+            TMsg::Boom => panic!("boom"),
+        }
+    }
+    async fn post_stop(&self, _: ActorRef<TMsg>, post: &mut Arc<AtomicBool>) -> Result<(), ActorProcessingErr> {
+        post.store(true, Ordering::SeqCst);
         Ok(())
     }
 }
@@ -814,7 +837,7 @@ fn random_case(env: &mut Env, rng: &mut Rng, cause: &str, kinds: &[WKind], ndrai
 /// Real tasks on a multi-threaded runtime call `wait`, `wait(timeout)`, `stop_and_wait`,
 /// `kill_and_wait`, `drain_and_wait` or await the join handle while the actor exits; each takes a
 /// snapshot the moment it completes.
-fn stress_case(env: &mut Env, srt: &tokio::runtime::Runtime, rng: &mut Rng, idx: u64) {
+fn stress_case(env: &mut Env, srt: &tokio::runtime::Runtime, spawner: &ThreadLocalActorSpawner, rng: &mut Rng, idx: u64) {
     let case_no = CASE_NO.fetch_add(1, Ordering::SeqCst);
     let name = format!("c06-target-{case_no}");
     let group = format!("c06-group-{case_no}");
@@ -824,7 +847,24 @@ fn stress_case(env: &mut Env, srt: &tokio::runtime::Runtime, rng: &mut Rng, idx:
     let cause = *rng.pick(&["stop", "stop", "kill", "drain", "panic"]);
     let n = rng.range(1, 6) as usize;
     let kinds: Vec<&'static str> =
-        (0..n).map(|_| *rng.pick(&["wait", "wait", "wait_timeout", "stop_and_wait", "kill_and_wait", "drain_and_wait", "join"])).collect();
+        (0..n)
+            .map(|_| {
+                *rng.pick(&[
+                    "wait",
+                    "wait",
+                    "wait_timeout",
+                    "stop_and_wait",
+                    "kill_and_wait",
+                    "drain_and_wait",
+                    "join",
+                    "stop_and_wait_timeout",
+                    "kill_and_wait_timeout",
+                    "drain_and_wait_timeout",
+                ])
+            })
+            .collect();
+    // one case in three: the target is a thread-local actor on the spawner's thread
+    let local = rng.chance(1, 3);
     let delays: Vec<u64> = (0..n).map(|_| rng.range(0, 3) * rng.range(0, 300)).collect();
     let trigger_delay = rng.range(0, 3) * rng.range(0, 300);
     let touts: Vec<u64> = (0..n).map(|_| rng.range(0, 3)).collect();
@@ -833,8 +873,11 @@ fn stress_case(env: &mut Env, srt: &tokio::runtime::Runtime, rng: &mut Rng, idx:
 
     let (sup_ref, aref, handle, child) = srt.block_on(async {
         let (sup_ref, _) = Actor::spawn(None, Sup { events: events.clone() }, ()).await.expect("spawn sup");
-        let (aref, handle) =
-            Actor::spawn_linked(Some(name.clone()), Target { post: post.clone(), explode: false }, (), sup_ref.get_cell()).await.expect("spawn target");
+        let (aref, handle) = if local {
+            LTarget::spawn_linked(Some(name.clone()), post.clone(), sup_ref.get_cell(), spawner.clone()).await.expect("spawn local target")
+        } else {
+            Actor::spawn_linked(Some(name.clone()), Target { post: post.clone(), explode: false }, (), sup_ref.get_cell()).await.expect("spawn target")
+        };
         let cell = aref.get_cell();
         ractor::pg::join(group.clone(), vec![cell.clone()]);
         ractor::pg::monitor(mgroup.clone(), cell.clone());
@@ -866,6 +909,18 @@ fn stress_case(env: &mut Env, srt: &tokio::runtime::Runtime, rng: &mut Rng, idx:
                     "stop_and_wait" => cell.stop_and_wait(None, None).await.map_err(|_| "err"),
                     "kill_and_wait" => cell.kill_and_wait(None).await.map_err(|_| "err"),
                     "drain_and_wait" => cell.drain_and_wait(None).await.map_err(|_| "err"),
+                    "stop_and_wait_timeout" => cell.stop_and_wait(None, Some(Duration::from_millis(tout))).await.map_err(|e| match e {
+                        ractor::RactorErr::Timeout => "timeout",
+                        _ => "err",
+                    }),
+                    "kill_and_wait_timeout" => cell.kill_and_wait(Some(Duration::from_millis(tout))).await.map_err(|e| match e {
+                        ractor::RactorErr::Timeout => "timeout",
+                        _ => "err",
+                    }),
+                    "drain_and_wait_timeout" => cell.drain_and_wait(Some(Duration::from_millis(tout))).await.map_err(|e| match e {
+                        ractor::RactorErr::Timeout => "timeout",
+                        _ => "err",
+                    }),
                     _ => {
                         let h = handle.lock().await.take();
                         match h {
@@ -919,14 +974,25 @@ fn stress_case(env: &mut Env, srt: &tokio::runtime::Runtime, rng: &mut Rng, idx:
             }
             tokio::time::sleep(Duration::from_millis(1)).await;
         }
+        // … and the actor (possibly on another thread, and nobody may be waiting for it: every call can have
+        // returned an error or a timeout) the time to publish `Stopped`, which follows the terminal event
+        for _ in 0..5000 {
+            if cell.get_status() == ractor::ActorStatus::Stopped {
+                break;
+            }
+            tokio::time::sleep(Duration::from_millis(1)).await;
+        }
         out
     });
     let _ = id;
     env.log.rec(
-        format!("xstress {idx} cause={cause} n={n}"),
+        format!("xstress {idx} cause={cause} n={n}{}", if local { " flavour=local" } else { "" }),
         format!("w={} sup={} st={}", results.join(","), events.lock().unwrap().join(","), cell.get_status() as u8),
     );
     env.st.bump("stress_cases");
+    if local {
+        env.st.bump("stress_thread_local_target");
+    }
     for r in &results {
         env.st.bump(&format!("stress_{}", r.split(':').take(2).collect::<Vec<_>>().join("_")));
     }
@@ -1365,8 +1431,9 @@ fn main() {
     let stress = args.u64("stress", 0);
     if stress > 0 && args.u64("only-replay", 0) == 0 {
         let srt = tokio::runtime::Builder::new_multi_thread().worker_threads(3).enable_time().build().expect("stress runtime");
+        let spawner = ThreadLocalActorSpawner::new();
         for i in 0..stress {
-            stress_case(&mut env, &srt, &mut rng, i);
+            stress_case(&mut env, &srt, &spawner, &mut rng, i);
         }
     }
     env.st.add("lines", env.log.lines);
